@@ -550,6 +550,93 @@ def expect_sessions(rep, rundir, prop, items, kind="session-expectation"):
     return n
 
 
+def _seam_obs(text):
+    o = observe(text)
+    return dict(text=text, status=o.get("status"), value=o.get("value"), out=(o.get("out") or "")[:200], escaped=o.get("escaped"),
+                err=(o.get("err") or "")[:160], hung=o.get("hung"))
+
+
+SEAM_WRAPPERS = [      # (pattern, how the plain value v appears in the wrapped result)
+    ("{%s}", lambda v: "A:[%s]" % v),
+    ("{{%s}}", lambda v: "A:[A:[%s]]" % v),
+    ("{%s : zk in 1..2}", lambda v: "A:[%s;%s]" % (v, v)),
+    ("zz = %s; zz", lambda v: v),
+    ("zz = %s; yy = zz; {yy, zz}", lambda v: "A:[%s;%s]" % (v, v)),
+    ("zz = {%s}; {zy : zy in zz}", lambda v: "A:[%s]" % v),
+    ("{zy : zy in {%s, %s}}", lambda v: "A:[%s;%s]" % (v, v)),
+    ("((%s))", lambda v: v),
+]
+# as the condition of a comprehension (for values with a meaningful ==: numbers, quantities, instants, intervals):
+# comparing the value with itself holds at every position; an expression that is refused alone is refused there too
+# (nothing is swallowed into "condition false")
+SEAM_CONDITION = ("{zk : zk in 1..2, (%s) == (%s)}", lambda v: "A:[I:1;I:2]")
+
+
+def seam_check(rep, rundir, prop, texts=(), templates=(), wrappers=None, limit=10.0, pairs=()):
+    """Metamorphic relations between a property's expressions standing alone and the same expressions reached through
+    another construct (array element, nested array, comprehension body, variable, alias, generator source): the value,
+    its kind and the refusal must be the same.  `templates` = (pattern with one %s, [operand texts]): the comprehension
+    {pattern(x) : x in {operands}} must be the array of the individually evaluated patterns (a node evaluated once per
+    element must follow the element).  No oracle is needed: the implementation is compared with itself."""
+    wrappers = SEAM_WRAPPERS if wrappers is None else wrappers
+    jobs = []
+    for t in texts:
+        jobs.append(("plain", t, None, t))
+        for pat, f in wrappers:
+            jobs.append(("wrap", t, f, pat.replace("%s", "(%s)" % t) if pat != "((%s))" else pat % t))
+    for pat, ops in templates:
+        for x in ops:
+            jobs.append(("plain", pat % ("(%s)" % x), None, pat % ("(%s)" % x)))
+        jobs.append(("comp", (pat, tuple(ops)), None, "{%s : zq in {%s}}" % (pat % "zq", ", ".join(ops))))
+        jobs.append(("comp", (pat, tuple(ops)), None, "zv = {%s}; {%s : zq in zv}" % (", ".join(ops), pat % "zq")))
+    for a, b in pairs:          # two spellings of one value (e.g. an aggregate and the folded operator)
+        jobs.append(("plain", b, None, b))
+        jobs.append(("pair", b, None, a))
+    obs = run_impl(_seam_obs, [j[3] for j in jobs], rundir, limit=limit)
+    plain = {}
+    for j, o in zip(jobs, obs):
+        if j[0] == "plain":
+            plain[j[3]] = o
+    n = 0
+    for j, o in zip(jobs, obs):
+        if j[0] == "plain":
+            continue
+        n += 1
+        if j[0] == "pair":
+            p = plain[j[1]]
+            if p.get("hung") or p.get("escaped"):
+                continue
+            if p.get("status") == 0:
+                want, ok = p.get("value"), (o.get("status") == 0 and o.get("value") == p.get("value"))
+            else:
+                want, ok = "a diagnosed error (as %s)" % j[1], (o.get("status") == 1 and not o.get("escaped") and not o.get("hung"))
+        elif j[0] == "wrap":
+            p = plain[j[1]]
+            if p.get("hung") or p.get("escaped"):
+                continue            # the plain expression itself is the property check's business
+            if p.get("status") == 0 and p.get("value") is not None:
+                want, ok = j[2](p["value"]), None
+                ok = (o.get("status") == 0 and o.get("value") == want)
+            else:
+                want, ok = "a diagnosed error (as for the expression alone)", (o.get("status") == 1 and not o.get("escaped") and not o.get("hung"))
+        else:
+            pat, ops = j[1]
+            ps = [plain[pat % ("(%s)" % x)] for x in ops]
+            if any(q.get("hung") or q.get("escaped") for q in ps):
+                continue
+            if all(q.get("status") == 0 and q.get("value") is not None for q in ps):
+                want = "A:[%s]" % ";".join(q["value"] for q in ps)
+                ok = o.get("status") == 0 and o.get("value") == want
+            else:
+                want, ok = "a diagnosed error (one element is refused alone)", (o.get("status") == 1 and not o.get("escaped") and not o.get("hung"))
+        if not ok:
+            got = o.get("value") if o.get("status") == 0 else ("hang" if o.get("hung") else "E:status%r/%s %s" % (o.get("status"), o.get("escaped"), (o.get("err") or "").strip()[:80]))
+            rep.violation(dict(kind="seam", via=(j[3].split("%")[0][:12] if j[0] == "wrap" else "comprehension")),
+                          "%s fails through another construct: %s gives %s, the expression alone gives %s" % (prop, j[3][:200], str(got)[:200], str(want)[:200]),
+                          dict(text=j[3], impl=str(got)[:400], expected=str(want)[:400]))
+    return n
+
+
 def run_lock():
     """coq/Gen is regenerated from the tree under test and shared by every run: runs against /repo share this lock,
     a run against another tree (KA_REPO=...) holds it exclusively.  Returns the open file (close it to release)."""
